@@ -1,4 +1,5 @@
 import CollectionsC.Proofs.PListHistory
+import CollectionsC.Proofs.PListZip
 import CollectionsC.Properties.C04
 /-! # C04 (pointer level) — the raw `next`/`prev` links of CC_List
 
@@ -28,20 +29,17 @@ The iterator mutators (`cc_list_iter_add/remove/replace`, the descending and the
 node `iter->last`; the cursor arithmetic stays with the sequence-level iterator models (`C07List`), the surgery is modelled
 here (`iterAddAt`, `diterAddAt`, `iterRemoveAt`, `iterReplaceAt`, `zipAddAt`), run by the driver on the node at the cursor's
 position (so L3 compares node identity across iterator programs too) and proved for the single iterators
-(`iter_add_links`, `diter_add_links`, `iter_remove_links`); the zip variants are two such steps on two lists (model and L3
-only, no separate theorem).
+(`iter_add_links`, `diter_add_links`, `iter_remove_links`) and for the zip iterator (`zip_add_links`, `zip_remove_links`).
 
 **Scope of "always".**  `history_refines`/`history_refines_ideal`/`mirror` along histories quantify over `List POp`: the 16
 operations above (insertions, bulk copies, splices, removals, `replace_at`, `reverse`, `filter_mut`, exchange of roles), any
 refusal schedule, any triples.  The iterator mutators have the one-call theorems below (`iter_add_links`, `diter_add_links`,
 `iter_remove_links`, and `iter_mutators_mirror`: the result is well-formed, hence mirrored), from any represented state —
 which covers every state reachable by `POp` histories and iterator calls in any interleaving, but they are not constructors
-of `POp`.  **Not covered at link level**: `cc_list_sort_in_place` (`split`/`merge` re-link already linked nodes through
-`link_behind`; only the sequence-level `C18List.sort_in_place_*` theorems and the harness walkers speak about its links),
-`cc_list_sort` (rewrites `data` only — trivially link-preserving, not stated), the zip mutators as a pair (two single
-steps; model and L3 only) and the derived-list builders (fresh lists built by `add`).  After one of the uncovered operations the
-driver rebuilds the pointer-level state from the sequence-level one and both sides renumber their nodes (links are still
-compared after it, node identity across it is not). -/
+of `POp`; the zip mutators have `zip_add_links` / `zip_remove_links` (two lists on one heap).  Elsewhere at link level:
+`cc_list_sort_in_place` and `cc_list_sort` in `C18PList.lean` (`sort_in_place_mirror`: both traversal directions after the
+in-place sort), the derived-list builders in `C15PList.lean`.  Every list operation the harness can issue now has a
+pointer-level model that the driver runs alongside, so L3 compares node identity across all of them (no resynchronisation). -/
 namespace CC.Properties.C04PList
 open CC CC.Chain CC.PList
 open CC.Spec
@@ -157,6 +155,35 @@ theorem iter_mutators_mirror (s : St) (l : Hdr) (pre post : List Cell) (a : Cell
   ⟨fun ha => ⟨PList.mirror ⟨_, (iter_add_links s l pre post a x m r hb ha).1⟩,
               PList.mirror ⟨_, diter_add_links s l pre post a x m r hb ha⟩⟩,
    PList.mirror ⟨_, (iter_remove_links s l pre post a m r hb).2⟩⟩
+
+/-- **`cc_list_zip_iter_add`** on two lists sharing the heap, `l1_last`/`l2_last` any nodes `a1`/`a2` of theirs: refused at the
+first node — nothing happened; refused at the second — only the first block went back through the first list's triple;
+granted — each list gets its own fresh node directly behind its `last`, both stay represented (well-formed) and disjoint -/
+theorem zip_add_links (s : St) (l1 l2 : Hdr) (pre1 post1 pre2 post2 : List Cell) (a1 a2 : Cell) (x1 x2 : Nat) (m : Mem)
+    (r : Repr2 s.heap l1 l2 (pre1 ++ a1 :: post1) (pre2 ++ a2 :: post2))
+    (hb1 : ∀ y, y ∈ idsOf (pre1 ++ a1 :: post1) → y < s.fresh) (hb2 : ∀ y, y ∈ idsOf (pre2 ++ a2 :: post2) → y < s.fresh) :
+    ((m.allocT l1.triple).1 = false → zipAddAt s l1 l2 a1.1 a2.1 x1 x2 m = (.errAlloc, s, l1, l2, (m.allocT l1.triple).2)) ∧
+    ((m.allocT l1.triple).1 = true → ((m.allocT l1.triple).2.allocT l2.triple).1 = false →
+      zipAddAt s l1 l2 a1.1 a2.1 x1 x2 m = (.errAlloc, s, l1, l2, ((m.allocT l1.triple).2.allocT l2.triple).2.freeT l1.triple)) ∧
+    ((m.allocT l1.triple).1 = true → ((m.allocT l1.triple).2.allocT l2.triple).1 = true →
+      (zipAddAt s l1 l2 a1.1 a2.1 x1 x2 m).1 = .ok ∧
+      Repr2 (zipAddAt s l1 l2 a1.1 a2.1 x1 x2 m).2.1.heap (zipAddAt s l1 l2 a1.1 a2.1 x1 x2 m).2.2.1
+        (zipAddAt s l1 l2 a1.1 a2.1 x1 x2 m).2.2.2.1
+        (pre1 ++ a1 :: (s.fresh, x1) :: post1) (pre2 ++ a2 :: (s.fresh + 1, x2) :: post2)) :=
+  ⟨(zipAddAt_spec s l1 l2 pre1 post1 pre2 post2 a1 a2 x1 x2 m r hb1 hb2).1,
+   (zipAddAt_spec s l1 l2 pre1 post1 pre2 post2 a1 a2 x1 x2 m r hb1 hb2).2.1,
+   fun h1 h2 => ⟨((zipAddAt_spec s l1 l2 pre1 post1 pre2 post2 a1 a2 x1 x2 m r hb1 hb2).2.2 h1 h2).1,
+                 ((zipAddAt_spec s l1 l2 pre1 post1 pre2 post2 a1 a2 x1 x2 m r hb1 hb2).2.2 h1 h2).2.2.1⟩⟩
+
+/-- **`cc_list_zip_iter_remove`**: exactly the two nodes `l1_last`, `l2_last` leave their chains (each released through its own
+list's triple), both lists stay represented and disjoint -/
+theorem zip_remove_links (s : St) (l1 l2 : Hdr) (pre1 post1 pre2 post2 : List Cell) (a1 a2 : Cell) (m : Mem)
+    (r : Repr2 s.heap l1 l2 (pre1 ++ a1 :: post1) (pre2 ++ a2 :: post2))
+    (hb1 : ∀ y, y ∈ idsOf (pre1 ++ a1 :: post1) → y < s.fresh) (hb2 : ∀ y, y ∈ idsOf (pre2 ++ a2 :: post2) → y < s.fresh) :
+    (iterRemoveAt (iterRemoveAt s l1 a1.1 m).2.1 l2 a2.1 (iterRemoveAt s l1 a1.1 m).2.2.2).2.2.2 = (m.freeT l1.triple).freeT l2.triple ∧
+    Repr2 (iterRemoveAt (iterRemoveAt s l1 a1.1 m).2.1 l2 a2.1 (iterRemoveAt s l1 a1.1 m).2.2.2).2.1.heap (iterRemoveAt s l1 a1.1 m).2.2.1
+      (iterRemoveAt (iterRemoveAt s l1 a1.1 m).2.1 l2 a2.1 (iterRemoveAt s l1 a1.1 m).2.2.2).2.2.1 (pre1 ++ post1) (pre2 ++ post2) :=
+  ⟨(zipRemove_spec s l1 l2 pre1 post1 pre2 post2 a1 a2 m r hb1 hb2).2.2.1, (zipRemove_spec s l1 l2 pre1 post1 pre2 post2 a1 a2 m r hb1 hb2).2.2.2⟩
 
 /-- `cc_list_filter_mut` at the level of nodes: exactly the nodes whose element fails the predicate leave the chain (one
 release each), the others keep identity and order; the result is well-formed -/
